@@ -112,6 +112,12 @@ func concRoutes() []ref.Route {
 		// its Mux sees it (directly on the service and inside a routed Mux)
 		{Pattern: "svc.$t.zfirst", Marker: "tfirst", Group: "${t}"},
 		{Pattern: "svc.mnt.u.$id", Marker: "ufirst", Group: "${id}"},
+		// overlapping patterns: a name may run into a dead end below the more specific branch
+		// (svc.bt.foo.baz below the literal foo, svc.bt.7.zap below the placeholder) and is
+		// then served by the next one
+		{Pattern: "svc.bt.foo.bar", Marker: "btlit", Group: "bt"},
+		{Pattern: "svc.bt.$id.baz", Marker: "btph", Group: "bt"},
+		{Pattern: "svc.bt.>", Marker: "btfull", Group: "bt"},
 	}
 }
 
@@ -181,6 +187,9 @@ func (e *concEngine) configure(s *res.Service) {
 	s.Handle("pg.$id", with(h("pg"), res.Group("pg.${id}"), res.Parallel(true))...)
 	s.Handle("", h("root")...)
 	s.Handle("$t.zfirst", with(h("tfirst"), res.Group("${t}"))...)
+	s.Handle("bt.foo.bar", with(h("btlit"), res.Group("bt"))...)
+	s.Handle("bt.$id.baz", with(h("btph"), res.Group("bt"))...)
+	s.Handle("bt.>", with(h("btfull"), res.Group("bt"))...)
 	sub := res.NewMux("")
 	sub.Route("u", func(m *res.Mux) {
 		m.Handle("$id", with(h("ufirst"), res.Group("${id}"))...)
@@ -286,7 +295,8 @@ func (e *concEngine) handle(kind string, r *res.Request) {
 	}
 }
 
-var concRIDs = []string{"svc.mnt.wk.a.%d.t", "svc.mnt.wk.b.%d.t.u", "svc.res.%d", "svc.sa.%d", "svc.sb.%d", "svc.tag.g%d.x", "svc.tag.g%d.y", "svc.mnt.item.%d", "svc.mnt.tg.g%d.z", "svc.mnt.deep.x.%d", "svc.mnt.thru.g%d.q", "svc.par.%d", "svc", "svc.mnt", "svc.pg.%d", "svc.t%d.zfirst", "svc.mnt.u.g%d", "svc.t%d.zfirst"}
+var concRIDs = []string{"svc.mnt.wk.a.%d.t", "svc.mnt.wk.b.%d.t.u", "svc.res.%d", "svc.sa.%d", "svc.sb.%d", "svc.tag.g%d.x", "svc.tag.g%d.y", "svc.mnt.item.%d", "svc.mnt.tg.g%d.z", "svc.mnt.deep.x.%d", "svc.mnt.thru.g%d.q", "svc.par.%d", "svc", "svc.mnt", "svc.pg.%d", "svc.t%d.zfirst", "svc.mnt.u.g%d", "svc.t%d.zfirst",
+	"svc.bt.foo.baz", "svc.bt.g%d.zap", "svc.bt.foo.bar", "svc.bt.foo.zap.x%d"}
 
 func (e *concEngine) randRID(r *rand.Rand) string {
 	hot := e.cfg.HotGroups
